@@ -45,6 +45,10 @@ type Options struct {
 	Sample func(at time.Duration, running []*mycoria.Instance) []string
 	// ListenAddr of A as the network sees it.
 	ListenAddr string
+	// RestartB > 0: B is stopped RestartB after the start and a NEW instance built from the
+	// same configuration is started ten virtual seconds later (a router that restarts while
+	// its peer keeps running); the new instance must peer with A again.
+	RestartB time.Duration
 }
 
 // Run runs the three-router scenario with the given operations failing.
@@ -131,7 +135,37 @@ func Run(t *testing.T, stores []config.Store, faults []string, opt Options) (res
 		}
 		start(a, "A")
 		start(b, "B")
-		advance(opt.LateStart)
+		if opt.RestartB > 0 && opt.RestartB < opt.LateStart {
+			advance(opt.RestartB)
+			var stopped bool
+			pan, pv := kit.Try(func() { guard(func() { stopped = b.Stop() }) })
+			if pan || !stopped {
+				problem("vnet/stop-false", fmt.Sprintf("Stop of router B (restart) failed: panic=%v stopped=%v", pv, stopped))
+			}
+			for i, x := range started {
+				if x == b {
+					started = append(started[:i], started[i+1:]...)
+					break
+				}
+			}
+			advance(10 * time.Second)
+			cfg, err := stores[1].Parse()
+			if err != nil {
+				problem("vnet/config-rejected", err.Error())
+				return
+			}
+			var nb *mycoria.Instance
+			pan, pv = kit.Try(func() { nb, err = mycoria.New("verif", cfg) })
+			if pan || err != nil {
+				problem("vnet/new-fails", fmt.Sprintf("router B (second incarnation): panic=%v err=%v", pv, err))
+				return
+			}
+			b = nb
+			start(b, "B'")
+			advance(opt.LateStart - opt.RestartB - 10*time.Second)
+		} else {
+			advance(opt.LateStart)
+		}
 		start(cc, "C")
 		advance(opt.Horizon - opt.LateStart)
 		// two minute ticks of the managers after the last fault.
